@@ -1,7 +1,9 @@
 package props
 
 import (
+	"bytes"
 	"fmt"
+	"github.com/gregoryv/mq"
 	"sort"
 
 	"verif/drv"
@@ -118,8 +120,53 @@ func styleProbes(c *sim.Ctx, a *ref.AP, frame []byte, fm []ref.Field) {
 	}
 }
 
+// c03Storm: a long-lived process. 2^22 + 16 decodes of a few small valid frames
+// in every legal short form, one after the other in ONE run: whatever the
+// decoder counts per process (a sampling self-check, a wrapping counter) passes
+// each of its thresholds up to 2^22 at least once, and every decode must still
+// give what the first one gave.
+func c03Storm(c *sim.Ctx) *sim.Violation {
+	frames := [][]byte{
+		{0x40, 0x02, 0x00, 0x07},                                   // PUBACK, identifier only
+		{0x40, 0x03, 0x00, 0x07, 0x00},                             // PUBACK with an explicit reason 0
+		{0x40, 0x04, 0x00, 0x07, 0x00, 0x00},                       // PUBACK with an empty property section
+		{0xE0, 0x00}, {0xE0, 0x01, 0x00}, {0xE0, 0x02, 0x00, 0x00}, // DISCONNECT in its three forms
+		{0x20, 0x06, 0x00, 0x00, 0x03, 0x21, 0x00, 0x0A}, // CONNACK with receive maximum 10
+		{0x30, 0x06, 0x00, 0x01, 't', 0x02, 0x01, 0x00},  // PUBLISH with an explicit payload format 0
+		{0xC0, 0x00}, {0xF0, 0x00},
+	}
+	want := make([]Outcome, len(frames))
+	for i, f := range frames {
+		want[i] = ReadOne(bytes.NewReader(f))
+		if want[i].Kind != "packet" {
+			return sim.V("C03/storm/not-decoded", "frame %x: %s", f, want[i])
+		}
+	}
+	n := 1<<22 + 16
+	rd := bytes.NewReader(nil)
+	for k := 0; k < n; k++ {
+		i := k % len(frames)
+		rd.Reset(frames[i])
+		p, err := mq.ReadPacket(rd)
+		if err != nil || p == nil {
+			return sim.V("C03/storm/rejected-after-many-decodes", "decode number %d of this process' storm: valid frame %x -> %v, %v (the first decode gave %s)", k+1, frames[i], p, err, want[i])
+		}
+		if k%65521 == 0 || k >= n-32 {
+			if got := drv.Observe(p).Canon(); got != want[i].Canon {
+				return sim.V("C03/storm/value-after-many-decodes", "decode number %d: frame %x decodes to %s, the first time to %s", k+1, frames[i], got, want[i].Canon)
+			}
+		}
+	}
+	c.CountN("storm.decodes", int64(n))
+	c.DistinctStr("storm")
+	return nil
+}
+
 func runC03(c *sim.Ctx) *sim.Violation {
 	t := c.T
+	if c.Run == 1 {
+		return c03Storm(c)
+	}
 	var a *ref.AP
 	if t.Bool(1, 150) {
 		a = gen.Bulk(t, c.Thorough) // thousands of tiny list elements, order and duplicates must survive
